@@ -256,6 +256,8 @@ def big_texts(tier):
     out.append(('short-rows', ''.join('%d,a\n' % i for i in range(30000)), ',', 'quoted'))
     out.append(('one-char-rows-crlf', ''.join('%s\r\n' % 'abcdefg'[i % 7] for i in range(20000)), ',', 'simple'))
     out.append(('long-fields', ''.join('%d,"%s",%s\n' % (i, 'x' * (1500 + 37 * i) + '""' + 'y' * 900, 'z' * (i * 211 % 3000)) for i in range(12)), ',', 'quoted_rfc'))
+    out.append(('record-spanning-2500-lines', 'a,"' + '\r\n'.join('l%d,""q""' % i for i in range(2500)) + '",z\r\nnext,row,here\r\n', ',', 'quoted_rfc'))
+    out.append(('wide-records', '::'.join('f%d' % i for i in range(4000)) + '\n' + '::'.join(['"a::b"'] * 4000) + '\n', '::', 'quoted'))
     line = 'abcdefgh,"q,1",xyz\r\n'
     tokens = [('crlf', '\r\n'), ('quoted-break', '"a,\r\nb"'), ('doubled-quote', '"a""b"'), ('4-byte', '\U0001d11e'), ('2-byte', '\xe9'), ('cr-cr-lf', '\r\r\n')]
     shifts = (-3, -2, -1, 0, 1, 2) if tier == 'quick' else tuple(range(-6, 7))
